@@ -71,18 +71,27 @@ pub open spec fn has_op(s: Seq<char>) -> bool { s.contains('|') || s.contains('&
 // which words expand_env may touch, and what one word may look like afterwards
 pub open spec fn env_elig(t: Token) -> bool { t.0@ != "`"@ && t.0@ != "'"@ && t.0@ != "\\"@ && spec_env_in_word(t.1@, is_dq(t.0@)) }
 pub open spec fn has_redir(s: Seq<char>) -> bool { s.contains('<') || s.contains('>') }
+// a `<` or `>` WRITTEN in the word: outside the text of its command substitutions (which are command lines of their own)
+pub open spec fn written_redir(t: Seq<char>) -> bool
+    decreases t.len()
+{
+    match spec_subst(t) {
+        Some(p) => if 0 <= p.0 && 0 <= p.1 && p.0 + p.1 < t.len() { has_redir(t.take(p.0)) || written_redir(t.skip(t.len() - p.1)) } else { has_redir(t) },
+        None => has_redir(t),
+    }
+}
 pub open spec fn env_tok_ok(sh: Shell, otoks: Seq<Token>, k: int, n: Token) -> bool {
     let o = otoks[k];
     &&& (!env_elig(o) ==> n.1@ == o.1@ && n.0@ == o.0@)
     // C10: the new text is the specified single-pass expansion of the old text
     &&& (env_elig(o) ==> n.1@ == env_expand(sh, o.1@, is_dq(o.0@)))
     // the tag is kept, or an unquoted word into which the value brought an operator character becomes double-quoted
-    &&& (n.0@ == o.0@ || (o.0@.len() == 0 && n.0@ == "\""@ && !has_redir(o.1@) && has_op(n.1@)))
+    &&& (n.0@ == o.0@ || (o.0@.len() == 0 && n.0@ == "\""@ && !written_redir(o.1@) && has_op(n.1@)))
     // C13: an operator character in a word that is still unquoted was written there, it did not come from a value
     //      (exempt are only the untagged NAME=value words the line starts with: they are taken off the line as assignments before
     //      operators are looked for; a NAME=value shaped word anywhere else is an argument like any other)
     //      and the words in which the user wrote a redirection (`2>$F`): there `<` / `>` is syntax by intent)
-    &&& (env_elig(o) && n.0@.len() == 0 && has_op(n.1@) ==> has_redir(o.1@) || assign_prefix(otoks, k))
+    &&& (env_elig(o) && n.0@.len() == 0 && has_op(n.1@) ==> written_redir(o.1@) || assign_prefix(otoks, k))
 }
 pub open spec fn env_lo(b: Seq<(usize, String)>, m: int, n: int) -> int { if 0 <= m < b.len() { b[m].0 as int } else { n } }
 pub open spec fn env_inb(b: Seq<(usize, String)>, k: int) -> bool { exists|m: int| 0 <= m < b.len() && (#[trigger] b[m]).0 as int == k }
@@ -328,6 +337,7 @@ pub open spec fn assign_prefix(toks: Seq<Token>, k: int) -> bool {
 //@FN expand_one_env
 //@FN expand_alias
 //@FN expand_home
+//@FN has_written_redirection
 //@FN expand_env
 
 // ---- do_expansion: the fixed order of the passes (ghost trace) ----
@@ -506,6 +516,10 @@ expand_home.hints = {'loop-0-body-entry': 'assert("~"@.len() == 1 && "~"@[0] == 
                                           '    if a[0] == \'~\' { assert(a.subrange(0, 1) =~= "~"@); } else { assert(a.subrange(0, 1)[0] == a[0]); } } }'}
 
 # expand_env: which words may change, what happens to the tag, and (C13) that operator characters from a value become data
+written = Fn(S, 'has_written_redirection', ret='r', props=('C13',),
+    ensures=[('C13+C10.written_redirection.only_what_stands_outside_the_command_substitutions_of_the_word', 'r == written_redir(word@)')],
+    loops={0: Loop(invariant=[('C13.inv.written.rest', 'written_redir(rest@) == written_redir(word@)')], decreases='rest@.len()')},
+)
 expand_env = Fn(S, 'expand_env', rewrites=TYRW, props=('C10',),
     pre_rewrites=[SETTXT, Rw(r'tokens\[\*i\]\.0 = (.*?);', r'vx_set_token_tag(tokens, *i, \1);', regex=True, rule='R12', required=False,
                              why='IndexMut + tuple-field assignment through a shim (frame: only that token tag changes)'),
@@ -563,7 +577,7 @@ do_expansion = Fn(S, 'do_expansion', add_params='Tracked(tr): Tracked<&mut PassT
               'final(tr).t == old(tr).t || final(tr).t == old(tr).t + seq![0int, 1int, 2int, 3int, 4int, 5int, 6int]')],
 )
 
-UNIT = Unit('U-EXP2', TEMPLATE, fns=[common.has_operator_fn(), common.in_assignment_prefix_fn(), add_alias, is_alias, remove_alias, get_alias_content, get_alias_list, get_env, format_alias, expand_one_env, expand_alias, expand_home, expand_env, do_expansion],
+UNIT = Unit('U-EXP2', TEMPLATE, fns=[common.has_operator_fn(), common.in_assignment_prefix_fn(), add_alias, is_alias, remove_alias, get_alias_content, get_alias_list, get_env, format_alias, expand_one_env, expand_alias, expand_home, written, expand_env, do_expansion],
             types=[TypeItem('src/types.rs', 'struct', 'LineInfo'), TypeItem('src/types.rs', 'struct', 'Job'),
                    TypeItem('src/shell.rs', 'struct', 'Shell', rewrites=[Rw('types::Job', 'Job', rule='R0')])],
             props=('C17', 'C10', 'C12', 'C13', 'C01', 'C05'))
